@@ -78,6 +78,16 @@ def spec_call(engine, st, name, node):
         if isinstance(v, Ref):
             return tmp.heap[v.id]
         return v
+    if name == "prev":
+        snap = getattr(st, "iter_old", None)
+        if snap is None:
+            raise Unsupported("prev() outside a loop iteration contract")
+        tmp = st.clone()
+        tmp.vars, tmp.heap = dict(snap[0]), dict(snap[1])
+        v = engine.eval(tmp, node.args[0])
+        if isinstance(v, Ref):
+            return tmp.heap[v.id]
+        return v
     if name == "keys":
         S = engine.deref(st, engine.eval(st, node.args[0]))
         return V(Ty.Set(Key), [domain_of(engine, S)])
@@ -114,6 +124,20 @@ def spec_call(engine, st, name, node):
         finally:
             engine.bound = old
         return V(Ty.Set(Key), [z3.Lambda([zc], body)])
+    if name == "mapof":
+        # mapof(lambda x: in_domain, lambda x: value)
+        ld, lv = node.args
+        zc = z3.Int(f"mo!{ld.args.args[0].arg}!{ld.col_offset}")
+        old = dict(engine.bound)
+        try:
+            engine.bound[ld.args.args[0].arg] = V(Int, [zc])
+            dom = engine.truth(st, engine.eval(st, ld.body))
+            engine.bound = dict(old)
+            engine.bound[lv.args.args[0].arg] = V(Int, [zc])
+            val = engine.unbox_value(st, engine.eval(st, lv.body))
+        finally:
+            engine.bound = old
+        return V(Ty.Map(Key, val.t), [z3.Lambda([zc], dom)] + [z3.Lambda([zc], c) for c in val.c])
     if name == "prodset":
         S = domain_of(engine, engine.deref(st, engine.eval(st, node.args[0])))
         sz = engine.deref(st, engine.eval(st, node.args[1]))
@@ -465,7 +489,15 @@ def builtin_call(engine, st, name, node):
             return engine.e_List(st, ast.List(elts=[], ctx=ast.Load()))
         a = node.args[0]
         if isinstance(a, (ast.GeneratorExp, ast.ListComp)):
-            return comprehension(engine, st, a, "list")
+            r = comprehension(engine, st, a, "gen" if name == "tuple" else "list")
+            if name == "tuple":
+                rv = engine.deref(st, r)
+                if isinstance(rv, V) and isinstance(rv.t, Ty.List):
+                    ln = z3.simplify(rv.c[0])
+                    if z3.is_int_value(ln):
+                        return Ty.mk_tuple([engine.elem(rv, z3.IntVal(p)) for p in range(ln.as_long())])
+                    raise Unsupported("tuple() of a list of symbolic length")
+            return r
         if isinstance(a, ast.Call) and isinstance(a.func, ast.Name) and a.func.id == "range":
             from .loops import describe_iter
 
@@ -661,6 +693,8 @@ def comprehension(engine, st, node, kind):
                 for v in vals:
                     A = z3.Store(A, engine.keyterm(v), True)
                 return engine.alloc(st, V(Ty.Set(Key), [A]))
+            if kind == "list" and vals:
+                return list_from_values(engine, st, vals)
             return Ty.mk_tuple(vals)
         q = z3.Int(f"cq!{node.lineno}.{node.col_offset}")
         if isinstance(it, PosIter):
